@@ -3,6 +3,7 @@ set per scenario, so the tables state which pairs an n-ary predicate compares, w
 the outcomes combine — independent of macros, helper functions, loops or folds."""
 from . import absint, machine, mir, registry
 from .absint import Enum, UNKNOWN
+from . import machine
 from .machine import NOT, Machine, ok, err, some, none
 from .mir import callee, callee_matches
 from .evaltables import Tok, contains, find_enum
@@ -53,6 +54,82 @@ def compare_table(fb, name, n_args=3):
             continue
         rows.append((outcome, {"events": ev, "result": res}))
     return f, rows
+
+
+def operand_type_table(fb, name):
+    """the predicate on 0..3 operands of which one (at every position) is not a number, all comparisons before it holding: a type
+    error, never an invented value; on 0 and 1 numbers: #t"""
+    regs = {r["name"]: r for r in registry.read(fb)}
+    if name not in regs or not regs[name]["target"]:
+        return None
+    f = fb.by_path(regs[name]["target"])
+    vi = dict((n, i) for i, n in fb.variants("values::Value"))
+    rows = []
+    for k in range(0, 4):
+        for bad in [None] + list(range(k)):
+            if bad is None and k > 1:
+                continue
+            args = [_num(fb, "N%d" % i) for i in range(k)]
+            for a_ in args:
+                a_.adt = "values::Value"
+            if bad is not None:
+                nb = Enum(vi["Symbol"], ["not-a-number"])
+                nb.name, nb.adt = "Symbol", "values::Value"
+                args[bad] = nb
+
+            def icpt(mc, c, a, tt, g):
+                end = c.rsplit("::", 1)[-1]
+                if end in ("lt", "le", "gt", "ge", "eq", "ne") and len(a) == 2 and all(isinstance(x, Tok) and x.kind == "number" for x in a):
+                    return end != "ne"
+                if end in ("partial_cmp", "cmp") and len(a) == 2 and all(isinstance(x, Tok) and x.kind == "number" for x in a):
+                    return UNKNOWN
+                return NOT
+            mc = Machine(fb, intercept=icpt, max_visits=8)
+            try:
+                res = mc.run(f, [list(args)])
+            except (absint.Stuck, absint.Loop) as e:
+                rows.append(((k, bad), {"stuck": str(e)}))
+                continue
+            rows.append(((k, bad), {"result": res}))
+    return f, rows
+
+
+def rule_operand_types(ctx, rule):
+    fb = ctx.fb()
+    from .ctx import where_of
+    decided = 0
+    for name in OPS:
+        t = operand_type_table(fb, name)
+        if t is None:
+            ctx.undecided(rule, name + "/operand-types", "the predicate %s is not registered as a builtin function" % name)
+            continue
+        f, rows = t
+        bad_msg, n, und = None, 0, 0
+        for (k, bad), d in rows:
+            if "stuck" in d:
+                und += 1
+                continue
+            n += 1
+            res = d["result"]
+            if bad is None:
+                val = find_enum(res, "Boolean")
+                good = getattr(res, "name", None) == "Ok" and bool(val) and val[0].fields and val[0].fields[0] is True
+                want = "#t"
+            else:
+                good = getattr(res, "name", None) == "Err" and bool(find_enum(res, "TypeMisMatch"))
+                want = "a type error"
+            if not good and bad_msg is None:
+                call = "(%s%s)" % (name, "".join(" 'x" if i == bad else " n%d" % i for i in range(k)))
+                bad_msg = "%s yields %r, expected %s%s" % (call, res, want, "" if bad is None else " (an operand that is not a number, every comparison before it holding)")
+        if not n:
+            ctx.undecided(rule, name + "/operand-types", "cannot follow %s on operands of the wrong type" % f.name, where_of(f))
+            continue
+        decided += 1
+        ctx.inst(rule, name + "/operand-types", {"rows": n, "not_followed": und})
+        ctx.oblige(bad_msg is None)
+        if bad_msg:
+            ctx.report(rule, name + "/operand-types", bad_msg, where_of(f))
+    return decided
 
 
 def rule_compare(ctx, rule_op, rule_chain):
@@ -1186,4 +1263,250 @@ def rule_kind_cmp(ctx, rule):
             ctx.oblige(bad is None)
             if bad:
                 ctx.report(rule, key, "%s on %s x %s does not give the mathematical order: %s" % (short, ka, kb, bad), where_of(f))
+    return decided
+
+
+# ------------------------------------------------------------------------------------------------ inexact operands: the IEEE result
+
+
+def _ieee(op, vals):
+    """the binary32 result of the IEEE operation on the (already converted) operands; None: not defined here"""
+    import math
+    x = vals[0]
+    if op == "abs":
+        return math.fabs(x)
+    if op in ("floor", "ceiling"):
+        if x != x or x in (float("inf"), float("-inf")):
+            return x
+        r = float(math.floor(x) if op == "floor" else math.ceil(x))
+        return math.copysign(0.0, x) if r == 0 else r
+    y = vals[1]
+    try:
+        return _f32({"+": lambda: x + y, "-": lambda: x - y, "*": lambda: x * y, "/": lambda: x / y}[op]())
+    except ZeroDivisionError:
+        if x != x or x == 0:
+            return float("nan")
+        return math.copysign(float("inf"), x) * math.copysign(1.0, y)
+
+
+def _same_real(a, b):
+    import math
+    if a != a or b != b:
+        return a != a and b != b
+    return a == b and math.copysign(1.0, a) == math.copysign(1.0, b)
+
+
+def _evr(x, env):
+    """_evf extended with the rounding operations"""
+    import math
+    from .absint import Sym
+    if isinstance(x, Sym) and x.op in ("FFloor", "FCeil", "FRound", "FTrunc") and len(x.args) == 1:
+        v = _evr(x.args[0], env)
+        if v is None:
+            return None
+        return _ieee("floor" if x.op == "FFloor" else "ceiling", [v]) if x.op in ("FFloor", "FCeil") else None
+    if isinstance(x, Sym) and x.args:
+        from .absint import Sym as _S
+        vs = [_evr(a_, env) for a_ in x.args]
+        if any(v is None for v in vs):
+            return None
+        return _evf(_S(x.op, *[_Const(v) for v in vs]), env)
+    return _evf(x, env)
+
+
+class _Const:
+    """a value in the place of a sub-expression (for _evf)"""
+    def __init__(self, v):
+        self.v = v
+
+
+_evf_plain = _evf
+
+
+def _evf(x, env):          # noqa: F811  (wraps the evaluator above so that already computed sub-values pass through)
+    if isinstance(x, _Const):
+        return x.v
+    return _evf_plain(x, env)
+
+
+def real_arith_table(fb, fname, kinds, n_tests=5):
+    """`fname` (a unary / binary Number operation) with at least one inexact operand, payloads symbolic, every test explored both
+    ways: [(kinds, [path])], path = {tests, result} | {stuck}"""
+    from .absint import Sym
+    import itertools
+    nv = dict((n, i) for i, n in fb.variants("values::Number"))
+    f = fb.find(fname)
+    out = []
+    FLOAT_TESTS = {"is_sign_negative": "signneg", "is_sign_positive": "signpos", "is_nan": "isnan", "is_infinite": "isinf", "is_finite": "isfinite"}
+    FLOAT_UNARY = {"abs": "FAbs", "floor": "FFloor", "ceil": "FCeil", "round": "FRound", "trunc": "FTrunc", "neg": "FNeg"}
+    for ks in kinds:
+        paths, seen = [], set()
+        for schedule in itertools.product((True, False), repeat=n_tests):
+            inames, rnames = iter("abcd"), iter("xy")
+
+            def mk(kind):
+                if kind == "Integer":
+                    e = Enum(nv["Integer"], [Sym(next(inames))])
+                elif kind == "Rational":
+                    e = Enum(nv["Rational"], [Sym(next(inames)), Sym(next(inames))])
+                else:
+                    e = Enum(nv["Real"], [Sym(next(rnames))])
+                e.name = kind
+                return e
+            ops = [mk(k_) for k_ in ks]
+            pc, k = [], [0]
+
+            def sched(entry):
+                i = k[0]
+                k[0] += 1
+                if i >= len(schedule):
+                    raise absint.Stuck("more than %d tests on symbolic values on one path" % len(schedule))
+                pc.append(entry + (schedule[i],))
+                return schedule[i]
+
+            def icpt(mc, cn, args, tt, g):
+                end = cn.rsplit("::", 1)[-1]
+                symb = any(isinstance(x, Sym) for x in args)
+                unresolved = (tt.get("fn") or {}).get("resolved") is None
+                if cn.endswith("NumCast::from") and len(args) == 1:
+                    return some(Sym("ToReal", args[0])) if isinstance(args[0], (Sym, int)) else UNKNOWN
+                if end in ("zero", "one") and ("Zero::" in cn or "One::" in cn) and not args:
+                    return 0.0 if end == "zero" else 1.0
+                if end == "is_zero" and len(args) == 1 and symb:
+                    return sched(("eq", args[0], 0.0))
+                if end in FLOAT_TESTS and len(args) == 1 and symb:
+                    return sched((FLOAT_TESTS[end], args[0], None))
+                if end in ("eq", "ne", "lt", "le", "gt", "ge") and len(args) == 2 and symb and "cmp::" in cn:
+                    return sched((end, args[0], args[1]))
+                if end == "partial_cmp" and len(args) == 2 and symb and (unresolved or "cmp::impls" in cn):
+                    # an ordering of two symbolic values: kept symbolic; `<` `<=` `>` `>=` built on it become tests on the operands
+                    return machine.SymOrdering(args[0], args[1])
+                if end in ("div", "mul", "add", "sub") and "std::ops::" in cn and len(args) == 2 and symb and unresolved:
+                    return Sym("F" + end.capitalize(), args[0], args[1])
+                if end in FLOAT_UNARY and len(args) == 1 and symb and (unresolved or "Float" in cn or "Neg" in cn):
+                    return Sym(FLOAT_UNARY[end], args[0])
+                return NOT
+
+            def symcmp(op, x, y):
+                cf, cb = absint.CUR_F[0], absint.CUR_B[0]
+                term = cf.blocks[cb]["term"] if cf is not None and cb is not None else {}
+                if term.get("k") == "assert":
+                    return bool(term.get("expected"))
+                return sched((op, x, y))
+            mc = Machine(fb, intercept=icpt, max_visits=4, budget=500)
+            absint.SYM_COMPARE = symcmp
+            try:
+                res = mc.run(f, list(ops))
+            except (absint.Stuck, absint.Loop) as e:
+                sig = ("stuck", str(e))
+                if sig not in seen:
+                    seen.add(sig)
+                    paths.append({"stuck": str(e)})
+                continue
+            finally:
+                absint.SYM_COMPARE = None
+            if k[0] < len(schedule) and any(schedule[k[0]:]):
+                continue
+            sig = (tuple((p[0], repr(p[1]), repr(p[2]), p[3]) for p in pc), repr(res))
+            if sig in seen:
+                continue
+            seen.add(sig)
+            paths.append({"tests": list(pc), "result": res})
+        out.append((ks, paths))
+    return f, out
+
+
+REAL_OPS = {
+    "abs": ("values::Number::abs", 1), "floor": ("values::Number::floor", 1), "ceiling": ("values::Number::ceiling", 1),
+    "+": ("<values::Number as std::ops::Add>::add", 2), "-": ("<values::Number as std::ops::Sub>::sub", 2),
+    "*": ("<values::Number as std::ops::Mul>::mul", 2), "/": ("<values::Number as std::ops::Div>::div", 2),
+}
+
+
+def rule_real_arith(ctx, rule):
+    """an operation with an inexact operand returns the binary32 result of the IEEE operation on the converted operands — including the
+    sign of a zero result, the infinities and NaN: every path of abs / floor / ceiling on a real and of + - * / on every pair of kinds
+    with a real in it is evaluated on ten reals x the exact grid and compared with the IEEE result"""
+    fb = ctx.fb()
+    from .ctx import where_of
+    from fractions import Fraction
+    import itertools
+    nv = dict((n, i) for i, n in fb.variants("values::Number"))
+    decided = 0
+    for opn, (fname, arity) in REAL_OPS.items():
+        kinds = [("Real",)] if arity == 1 else [("Real", "Real"), ("Real", "Integer"), ("Integer", "Real"), ("Real", "Rational"), ("Rational", "Real")]
+        try:
+            f, table = real_arith_table(fb, fname, kinds)
+        except mir.AnchorMissing as e:
+            ctx.undecided(rule, opn, str(e))
+            continue
+        for ks, paths in table:
+            key = "%s/%s" % (opn, "-".join(ks))
+            good = [p for p in paths if "stuck" not in p]
+            if not good:
+                ctx.undecided(rule, key, "cannot follow %s on %s (%s)" % (fname, " x ".join(ks), paths[0]["stuck"] if paths else "no path"), where_of(f))
+                continue
+            # the symbols of the operands, in order of creation
+            inames, rnames = iter("abcd"), iter("xy")
+            osyms = []
+            for k_ in ks:
+                osyms.append([next(inames)] if k_ == "Integer" else ([next(inames), next(inames)] if k_ == "Rational" else [next(rnames)]))
+            names = [n_ for o in osyms for n_ in o]
+            dens = {o[1] for o, k_ in zip(osyms, ks) if k_ == "Rational"}
+            reals = {o[0] for o, k_ in zip(osyms, ks) if k_ == "Real"}
+            doms = [range(1, 4) if n_ in dens else (REALS if n_ in reals else range(-2, 3)) for n_ in names]
+            bad, points, uncovered = None, 0, 0
+            for vals in itertools.product(*doms):
+                env = dict(zip(names, vals))
+                conv = []
+                exact_zero_divisor = False
+                for i_, (o, k_) in enumerate(zip(osyms, ks)):
+                    if k_ == "Real":
+                        conv.append(env[o[0]])
+                    elif k_ == "Integer":
+                        conv.append(_f32(env[o[0]]))
+                        exact_zero_divisor |= (opn == "/" and i_ == 1 and env[o[0]] == 0)
+                    else:
+                        conv.append(_ieee("/", [_f32(env[o[0]]), _f32(env[o[1]])]))
+                        exact_zero_divisor |= (opn == "/" and i_ == 1 and env[o[0]] == 0)
+                if exact_zero_divisor:
+                    continue                                  # division by an exact zero: an error by another clause (C08 / C09-exact)
+                want = _ieee(opn, conv)
+                hit = None
+                for p in good:
+                    hs = [_test_holds(t, env) for t in p["tests"]]
+                    if None in hs or any(h != t[3] for h, t in zip(hs, p["tests"])):
+                        continue
+                    hit = p
+                    break
+                if hit is None:
+                    uncovered += 1
+                    continue
+                res = hit["result"]
+                val = res.fields[0] if isinstance(res, Enum) and getattr(res, "name", None) == "Ok" and res.fields else res
+                got = None
+                if isinstance(res, Enum) and getattr(res, "name", None) == "Err":
+                    got = "an error"
+                elif isinstance(val, Enum) and val.variant == nv.get("Real") and val.fields:
+                    got = _evr(val.fields[0], env)
+                elif isinstance(val, Enum) and val.variant in (nv["Integer"], nv["Rational"]):
+                    got = "an exact number"
+                if got is None:
+                    uncovered += 1
+                    continue
+                points += 1
+                okk = isinstance(got, float) and _same_real(got, want)
+                if not okk and bad is None:
+                    def lit(o, k_):
+                        return repr(env[o[0]]) if k_ == "Real" else (str(env[o[0]]) if k_ == "Integer" else "%d/%d" % (env[o[0]], env[o[1]]))
+                    bad = "(%s %s) gives %s, the IEEE binary32 result is %r (tests on the way: %s)" % (
+                        opn, " ".join(lit(o, k_) for o, k_ in zip(osyms, ks)), repr(got), want, [(t[0], repr(t[1]), repr(t[2]), t[3]) for t in hit["tests"]])
+            if not points:
+                ctx.undecided(rule, key, "no grid point selects a path of %s whose result could be evaluated" % fname, where_of(f))
+                continue
+            decided += 1
+            ctx.inst(rule, key, {"points": points, "points_without_a_followed_path": uncovered, "paths": len(good)})
+            ctx.oblige(bad is None)
+            if bad:
+                ctx.report(rule, key, "an operation with an inexact operand does not return the IEEE result: " + bad, where_of(f))
     return decided
